@@ -3,6 +3,8 @@
 # With MUT_REPO=<scratch worktree> the patch is applied there instead and the checks run with VERIF_REPO set
 # (used while a long background run is reading /repo).
 P=$1; shift
+export GOCACHE=${MUT_GOCACHE:-/var/tmp/gocache-mut}   # see seed_confirm.sh
+exec 9>/var/tmp/mut-worktree.lock; flock 9
 R=${MUT_REPO:-/repo}
 [ "$R" != /repo ] && { git -C $R checkout -q --detach main && git -C $R checkout -q -- . ; export VERIF_REPO=$R; }
 git -C $R diff --quiet || { echo "/repo is dirty"; exit 2; }
